@@ -1,6 +1,7 @@
 package main
 
 import (
+	"encoding/base64"
 	"errors"
 	"fmt"
 	"math"
@@ -281,6 +282,18 @@ func checkScalar(v Val, ds string, o Obs, render func(ds string) Obs) []finding 
 			}
 		}
 	}
+	// Binary: the text chosen by the letter (Puppet specification: b = base64 with a trailing line feed, B = strict
+	// base64, u = url-safe base64, s = the bytes, p = Binary('base64'), t/T = the type name), unquoted and unpadded
+	if v.K == "bin" && d.Width < 0 && d.Prec < 0 && !d.has('#') {
+		raw := []byte(v.bytes())
+		std := base64.StdEncoding.EncodeToString(raw)
+		want := map[byte]string{'b': std + "\n", 'B': std, 'u': base64.URLEncoding.EncodeToString(raw), 's': string(raw),
+			'p': "Binary('" + std + "')", 't': "Binary", 'T': "BINARY"}[d.Letter]
+		if out != want {
+			add("numeric", fmt.Sprintf("%s under %q renders %q, the reference text is %q", v, ds, out, want), "binary-"+string(d.Letter))
+			return fs
+		}
+	}
 	if strings.Contains(out, "%!") && !strings.Contains(v.String(), "%!") {
 		add("numeric", fmt.Sprintf("%s under %q renders %q: fmt's bad-directive marker", v, ds, out), "fmt-garbage")
 		return fs
@@ -363,7 +376,9 @@ func checkTree(v Val, pv px.Value, ctx px.FormatContext, o Obs, depth int, fs *[
 					o2 = classify(r)
 				}
 			}()
-			return renderPx(pv, px.NewFormatContext(pv.PType(), px.NewFormat(ds2), ctx.Indentation()))
+			// keyed by Any: the re-rendering must apply ds2 whatever the value's own type accepts (Float[NaN,NaN]
+			// does not accept itself, see the finding nan-directive-ignored)
+			return renderPx(pv, px.NewFormatContext(types.DefaultAnyType(), px.NewFormat(ds2), ctx.Indentation()))
 		})
 		*fs = append(*fs, sub...)
 		return
